@@ -45,6 +45,8 @@ type Contract struct {
 	Float        string // "exact" (default) or "ideal"
 	Emits        string // name of callback parameter for the emit idiom
 	Inline       bool
+	Modifies     []string // ghost relations the function may change
+	ParamNames   []string // receiver and argument names of an interface method contract
 	NoOverflow   bool // do not generate overflow obligations (documented)
 	Local        bool
 	LoopFrame    bool
@@ -100,6 +102,7 @@ type ContractSet struct {
 	Lemmas []*Lemma
 	Defs   map[string]*SpecDef
 	Files  []string
+	Ghosts map[string][]string // ghost relation name -> argument sort names (result Bool)
 }
 
 func (cs *ContractSet) Lookup(pkgDir, name string) *Contract {
@@ -261,6 +264,31 @@ func (cs *ContractSet) parseFile(path, pkgDir string) error {
 				return fail("shape: constructor %s takes %d ghosts", fl[1], want)
 			}
 			cur.Shapes = append(cur.Shapes, Shape{Param: fl[0], Ctor: fl[1], Ghosts: fl[2:]})
+		case "ghost":
+			// ghost name(sort, ...): a mutable ghost relation (abstract state of third-party objects)
+			i := strings.Index(rest, "(")
+			if i < 0 || !strings.HasSuffix(rest, ")") {
+				return fail("ghost: want 'ghost name(sort, ...)'")
+			}
+			var sorts []string
+			for _, p := range strings.Split(rest[i+1:len(rest)-1], ",") {
+				sorts = append(sorts, strings.TrimSpace(p))
+			}
+			if cs.Ghosts == nil {
+				cs.Ghosts = map[string][]string{}
+			}
+			cs.Ghosts[strings.TrimSpace(rest[:i])] = sorts
+		case "modifies":
+			if cur == nil {
+				return fail("modifies outside a contract")
+			}
+			cur.Modifies = append(cur.Modifies, strings.Fields(rest)...)
+		case "params":
+			// names for the receiver and the arguments of an interface method (extern invoke.* contracts)
+			if cur == nil {
+				return fail("params outside a contract")
+			}
+			cur.ParamNames = strings.Fields(rest)
 		case "lemma":
 			cur = nil
 			lem = &Lemma{Name: rest, PkgDir: pkgDir, File: path, Line: rl.line}
